@@ -313,6 +313,35 @@ def _accounts_itself(cad, b0, sct0):
     return None
 
 
+SOCK_TYPES = ('std::net::udp::UdpSocket::', 'std::os::unix::net::datagram::UnixDatagram::')
+SOCK_HARMLESS = ('send_to', 'send_to_addr', 'try_clone', 'local_addr', 'peer_addr', 'take_error', 'as_raw_fd', 'as_fd')
+
+
+def rule_socket_untouched(ctx, rep, rid='R4s'):
+    """The socket belongs to the caller: apart from `send_to(bytes, stored destination)` the library neither reconfigures
+    it (set_nonblocking, timeouts, ttl ..) nor binds it to a peer (connect + send) nor shuts it down.  A changed blocking
+    mode or a connection made once decides later whether - and where - buffered lines can be sent."""
+    cad = ctx.cad
+    n = 0
+    bad = []
+    for b in cad.all_bodies:
+        if b.file.endswith('/test.rs') or '::tests::' in b.path:
+            continue
+        for bi, t in b.calls():
+            k = strip_generics(t.get('callee_full', '') or '')
+            for st in SOCK_TYPES:
+                if k.startswith(st):
+                    n += 1
+                    meth = k[len(st):]
+                    if meth not in SOCK_HARMLESS and not b.blocks[bi]['cleanup']:
+                        bad.append((b, bi, meth))
+    rep.floor(rid, 'socket method calls in the library', n, 4)
+    rep.sites(n)
+    rep.ob(rid, 'socket-only-sent-to', not bad, bad[0][0].where(bad[0][1]) if bad else '',
+           'the only thing the library does with the caller\'s socket is send_to' if not bad else
+           '%s' % sorted(set('%s calls %s() on the socket' % (b_.short(), m_) for b_, _, m_ in bad)))
+
+
 def _payload_root(t):
     """as_bytes(&*metric) -> metric ; &*buf -> buf"""
     p = peel(t)
